@@ -35,7 +35,7 @@ if os.path.exists(mp):
 srows = ['| seed | files changed | needs (short) | caught by (quick, current tree) |', '|---|---|---|---|']
 for d in sorted(glob.glob(f'{V}/seeded/*/meta.json')):
     m = json.load(open(d)); name = d.split('/')[-2]
-    need = ' '.join(m['needs_to_manifest'].split())[:170]
+    need = ' '.join(m['needs_to_manifest'].split())[:170].replace('|', '/')
     got = matrix.get(name)
     if got:
         c = ', '.join(f"{i}{'' if rc == '1' else ' (exit ' + rc + ')'}" for i, rc, _ in got)
@@ -45,7 +45,7 @@ for d in sorted(glob.glob(f'{V}/seeded/*/meta.json')):
     srows.append(f"| {name} | {files} | {need} | {c} |")
 seeds = '\n'.join(srows)
 s = open(f'{V}/DESIGN.md').read()
-s = re.sub(r'<!-- STATUS-TABLE-BEGIN -->.*?<!-- STATUS-TABLE-END -->', '<!-- STATUS-TABLE-BEGIN -->\n' + status + '\n<!-- STATUS-TABLE-END -->', s, flags=re.S)
-s = re.sub(r'<!-- SEED-TABLE-BEGIN -->.*?<!-- SEED-TABLE-END -->', '<!-- SEED-TABLE-BEGIN -->\n' + seeds + '\n<!-- SEED-TABLE-END -->', s, flags=re.S)
+s = re.sub(r'<!-- STATUS-TABLE-BEGIN -->.*?<!-- STATUS-TABLE-END -->', lambda m: '<!-- STATUS-TABLE-BEGIN -->\n' + status + '\n<!-- STATUS-TABLE-END -->', s, flags=re.S)
+s = re.sub(r'<!-- SEED-TABLE-BEGIN -->.*?<!-- SEED-TABLE-END -->', lambda m: '<!-- SEED-TABLE-BEGIN -->\n' + seeds + '\n<!-- SEED-TABLE-END -->', s, flags=re.S)
 open(f'{V}/DESIGN.md', 'w').write(s)
 print('tables written')
